@@ -195,9 +195,17 @@ compute_float_shape!(c11_compute_float_shape_f32, f32, F32, -65, 38);
 
 static mut GHOST_LO: u64 = 0;
 static mut GHOST_HI: u64 = 0;
+static mut GHOST_PREC: usize = 0;
+static mut GHOST_ARGS: (i32, u64) = (0, 0);
+static mut GHOST_CALLS: u32 = 0;
 
-fn stub_product(_q: i32, _w: u64, _precision: usize) -> (u64, u64) {
-    unsafe { (GHOST_LO, GHOST_HI) }
+fn stub_product(q: i32, w: u64, precision: usize) -> (u64, u64) {
+    unsafe {
+        GHOST_CALLS += 1;
+        GHOST_PREC = precision;
+        GHOST_ARGS = (q, w);
+        (GHOST_LO, GHOST_HI)
+    }
 }
 
 macro_rules! compute_float_tail {
@@ -225,6 +233,13 @@ macro_rules! compute_float_tail {
             let e = spec_log2_pow10(q) - lz - 63;
             let (mant, e2, sticky) = spec_norm128(hi, lo, e);
             let fp = compute_float::<$t>(q, w);
+            unsafe {
+                // the product is requested once, for the normalised significand, with ms + 3 bits of
+                // precision (explicit bits + hidden bit + rounding bit + possible leading zero)
+                assert!(GHOST_CALLS == 1, "C11 one product request");
+                assert!(GHOST_ARGS == (q, w << lz), "C11 product requested for (q, normalised w)");
+                assert!(GHOST_PREC >= $fmt.ms as usize + 3 && GHOST_PREC <= 64, "C11 product requested with at least ms + 3 bits of precision");
+            }
             if fp.exp >= 0 {
                 let bits = fp.mant | ((fp.exp as u64) << $fmt.ms);
                 assert!(
@@ -383,33 +398,34 @@ macro_rules! lemire_harness {
 lemire_harness!(c11_lemire_truncated_f64, f64, F64);
 lemire_harness!(c11_lemire_truncated_f32, f32, F32);
 
-// ---------------------------------------------------------------- tie window (both ends)
+// ---------------------------------------------------------------- tie window (exact ties must be honoured)
 //
-// Lemire's analysis: a product whose low word is <= 1 and whose truncated bits are exactly
-// "half" denotes an exact rounding tie precisely when the decimal exponent lies in
-// [-4, 23] (f64) / [-17, 10] (f32); outside that window no exact tie exists and the same
-// bit pattern means "just above half".  The window ends are literals of this contract.
+// Inside [-4, 23] (f64) / [-17, 10] (f32) exact rounding ties exist (w = (2m+1) * 5^-q * 2^j for
+// q < 0; 5^q | w... for q >= 0) and their product has a zero low word and truncated bits exactly
+// "half"; the result must then be the EVEN neighbour.  The window ends are literals of this
+// contract (Lemire's analysis; arithmetic bounds: verus_threshold_lemmas thr_tie_*).
+// Deliberately one-sided: nothing is demanded outside the window or for a low word of 1, where no
+// exact tie exists - widening the window or testing `lo == 0` keeps the property and must not alarm.
 macro_rules! tie_window {
-    ($name:ident, $t:ty, $fmt:expr, $wmin:expr, $wmax:expr, $qmin:expr, $qmax:expr) => {
-        /// compute_float with the product as ghost: a tie-shaped product (lo <= 1, truncated
-        /// bits exactly half, normal range) is rounded to EVEN iff q is inside the tie window,
-        /// and UP outside it.
+    ($name:ident, $t:ty, $fmt:expr, $wmin:expr, $wmax:expr) => {
+        /// compute_float with the product as ghost: for every q INSIDE the tie window a
+        /// tie-shaped product (lo == 0, truncated bits exactly half, normal range) is rounded
+        /// to the EVEN neighbour.
         #[kani::proof]
         #[kani::stub(compute_product_approx, stub_product)]
         fn $name() {
             let q: i32 = kani::any();
             let w: u64 = kani::any();
-            let lo: u64 = kani::any();
             let hi: u64 = kani::any();
-            kani::assume(q >= $qmin && q <= $qmax && w != 0);
-            kani::assume(hi >> 62 != 0 && lo <= 1);
+            kani::assume(q >= $wmin && q <= $wmax && w != 0);
+            kani::assume(hi >> 62 != 0);
             // truncated bits of the (ms+2)-bit rounding candidate are exactly "half"
             let upper = (hi >> 63) as u32;
             let sh = upper + 64 - $fmt.ms - 3;
             let cand = hi >> sh; // ms+2 bits: significand plus the rounding bit
             kani::assume(cand & 1 == 1 && (cand << sh) == hi);
             unsafe {
-                GHOST_LO = lo;
+                GHOST_LO = 0;
                 GHOST_HI = hi;
             }
             let lz = w.leading_zeros() as i32;
@@ -417,17 +433,16 @@ macro_rules! tie_window {
             let e_field = spec_log2_pow10(q) + 63 + upper as i32 - lz + ($fmt.bias - $fmt.ms as i32 - 1) + 1;
             kani::assume(e_field >= 1 && (e_field as u64) < $fmt.inf_e - 1);
             let fp = compute_float::<$t>(q, w);
-            assert!(fp.exp >= 0 || lo == u64::MAX, "C11 tie-shaped product is decided");
+            assert!(fp.exp >= 0, "C11 an exact tie inside the window is decided");
             let sig = cand >> 1; // ms+1 bit significand below the tie
-            let inside = q >= $wmin && q <= $wmax;
-            let rounded = if inside && sig & 1 == 0 { sig } else { sig + 1 };
+            let rounded = if sig & 1 == 0 { sig } else { sig + 1 };
             let (m, e) = if rounded >> ($fmt.ms + 1) == 1 { (rounded >> 1, e_field + 1) } else { (rounded, e_field) };
-            assert!(fp.mant == m & ((1u64 << $fmt.ms) - 1) && fp.exp == e, "C11 tie-shaped product: to even inside the window, up outside");
-            kani::cover!(inside && sig & 1 == 0, "tie rounded down to even");
-            kani::cover!(!inside && sig & 1 == 0 && q < 0, "below the window: rounded up");
-            kani::cover!(!inside && sig & 1 == 0 && q > 0, "above the window: rounded up");
+            assert!(fp.mant == m & ((1u64 << $fmt.ms) - 1) && fp.exp == e, "C11 exact tie inside the window rounds to the even neighbour");
+            kani::cover!(sig & 1 == 0 && q == $wmin, "tie rounded down to even at the lower end of the window");
+            kani::cover!(sig & 1 == 0 && q == $wmax, "tie rounded down to even at the upper end of the window");
+            kani::cover!(sig & 1 == 1, "tie rounded up to even");
         }
     };
 }
-tie_window!(c11_compute_float_tie_window_f64, f64, F64, -4, 23, -342, 308);
-tie_window!(c11_compute_float_tie_window_f32, f32, F32, -17, 10, -65, 38);
+tie_window!(c11_compute_float_tie_window_f64, f64, F64, -4, 23);
+tie_window!(c11_compute_float_tie_window_f32, f32, F32, -17, 10);
